@@ -582,32 +582,36 @@ Section Univ.
   Qed.
 
   (* ----- Push ----- *)
-  Lemma push_good cfg o k s : Good cfg s -> Good cfg (fst (st_push cfg o k s)).
+  Lemma push_desc_good cfg o d s : Good cfg s -> Good cfg (fst (st_push_desc mf bad cfg o d s)).
   Proof.
-    intros G. unfold OciIndex.st_push. destruct (mem k (blobs s)) eqn:M; [exact G|].
+    intros G. unfold st_push_desc. set (k := d_node d).
+    destruct (mem k (blobs s)) eqn:M; [exact G|].
     destruct (bad k); [exact G|].
     destruct G as [H S]. destruct (mf k) eqn:Mk; simpl.
-    - unfold st_tag. apply good_save. unfold Inv, idx. simpl.
-      unfold is_digest_ref. simpl. rewrite Nat.eqb_refl. simpl.
-      change (rset (RDig k) (plain k) (r_index (res s))) with (rset (RDig (d_node (plain k))) (plain k) (idx s)).
+    - unfold st_tag. apply good_save. unfold Inv, idx.
+      assert (E : is_digest_ref (RDig k) d = true) by (unfold is_digest_ref, k; apply ref_eqb_refl).
+      rewrite E. cbn [blobs res gr disk r_index res_tag].
+      change (rset (RDig k) d (r_index (res s))) with (rset (RDig (d_node d)) d (idx s)).
       split.
       + apply ixinv_set_dig, H.
-      + intros r d L. rewrite lookup_rset in L. destruct (ref_eqb r (RDig (d_node (plain k)))).
+      + intros r d' L. rewrite lookup_rset in L. destruct (ref_eqb r (RDig (d_node d))).
         * injection L as <-. now left.
         * right. eapply inv_i4; eauto.
       + intros k' Mk' [<-|I]; rewrite lookup_rset.
-        * simpl. rewrite Nat.eqb_refl. congruence.
-        * destruct (ref_eqb (RDig k') (RDig (d_node (plain k)))); [congruence|]. eapply inv_k; eauto.
+        * fold k. rewrite ref_eqb_refl. congruence.
+        * destruct (ref_eqb (RDig k') (RDig (d_node d))); [congruence|]. eapply inv_k; eauto.
       + intros k' Mk' I. apply In_add in I as [->|I]; [now left|]. right. eapply inv_g2a; eauto.
       + intros k' Mk' [<-|I]; apply In_add; auto. right. eapply inv_g2b; eauto.
     - apply (good_same cfg s); [split; auto| |reflexivity|reflexivity].
       unfold Inv, idx. simpl. split.
       + apply H.
-      + intros r d L. right. eapply inv_i4; eauto.
+      + intros r d' L. right. eapply inv_i4; eauto.
       + intros k' Mk' [<-|I]; [congruence|]. eapply inv_k; eauto.
       + intros k' Mk' I. apply In_add in I as [->|I]; [congruence|]. right. eapply inv_g2a; eauto.
       + intros k' Mk' [<-|I]; [congruence|]. apply In_add. right. eapply inv_g2b; eauto.
   Qed.
+  Lemma push_good cfg o k s : Good cfg s -> Good cfg (fst (st_push cfg o k s)).
+  Proof. apply push_desc_good. Qed.
 
   Lemma tagop_good cfg o d r s : Good cfg s -> Good cfg (fst (st_tagop cfg o d r s)).
   Proof.
@@ -992,6 +996,7 @@ Section Univ.
   Proof.
     intros G W R. destruct oo as [o ord]. destruct o; simpl in *.
     - now apply push_good.
+    - now apply push_desc_good.
     - now apply tagop_good.
     - now apply untag_good.
     - unfold OciIndex.st_delete. now apply delete_loop_good.
